@@ -166,6 +166,16 @@ def precedence_tables(run, F, models, tag="C04"):
                    where(m, "::parser::Parser::convert_token_to_node"), "effects %s result %s" % ([e_[:2] for e_ in evs_], show_tail(tail)[:160]))
         else:
             run.ob(False, "postfix-shape|%s|superscript" % ev, P + "C04-5 superscript arm exists", where(m, "::parser::Parser::convert_token_to_node"), "no Superscript arm")
+        # 5b. a constant or `@` is a leaf: its arm consumes that one token and parses nothing else (an `e^x` fast path in the
+        # arm of `e` would group -e^2 and 2^e^2 behind the back of the climbing loop)
+        for s_ in ("pi", "e", "@"):
+            if s_ in ("pi", "e") and ev not in spec.CONSTANTS[s_]:
+                continue
+            tvc_ = m.tokvar(s_)
+            arm_ = pr.get(tvc_)
+            oka = arm_ is not None and [x[0] for x in arm_[1][0]] == ["next"] and arm_[1][1][0] == "ok"
+            run.ob(oka, "leaf-primary|%s|%s" % (ev, s_), P + "C04-5 a constant / placeholder primary consumes exactly its own token and builds a leaf", where(m, "::parser::Parser::parse_number"),
+                   "%r arm: effects %s" % (s_, [x[:2] for x in arm_[1][0]] if arm_ else None))
         # 6. brackets
         for opn, (cls, evs, wrap) in spec.BRACKETS.items():
             if ev not in evs:
